@@ -4,8 +4,10 @@ set -e
 cd "$(dirname "$0")"
 export GOFLAGS=-mod=mod GOPROXY=off GOSUMDB=off GOTOOLCHAIN=local CGO_ENABLED=0
 mkdir -p build evidence replays
-cp /repo/go.sum harness/go.sum 2>/dev/null || true
+R="${VERIF_REPO:-/repo}"
+cp "$R/go.sum" harness/go.sum 2>/dev/null || true
+if [ "$R" != "/repo" ]; then (cd harness && go mod edit -replace github.com/ilius/libgostarcal="$R"); fi
 (cd harness && go build -tags verif -o ../build/oracle ./cmd/oracle && go build -tags verif -o ../build/extract ./cmd/extract)
-./build/extract -repo /repo -out lean/Starcal/Gen || echo "extract reported problems (the checks will report them)"
+./build/extract -repo "$R" -out lean/Starcal/Gen || echo "extract reported problems (the checks will report them)"
 (cd lean && timeout 3000 lake build Starcal driver)
 echo "setup ok"
